@@ -38,8 +38,9 @@ MANIFEST = dict(
          "delete_entry, resize, object_add_ex (all flags, replace in place), object_del, every iteration form and foreach-with-delete-"
          "current; each call refines the ordered-map specification OrdMap (lh_refines), never faults and its probe/list loops end "
          "(lh_no_fault, lookup_terminates - proved from the `count < t->size` bound read off the source), lookup answers exactly the map "
-         "(lookup_correct), lh_foreach / foreach / foreachC / iterator all yield the map in insertion order (iter_all_forms; serializer "
-         "and json_c_visit are tied to foreachC / foreach by source facts), deleting the current key inside foreach is safe "
+         "(lookup_correct), lh_foreach / foreach / foreachC / iterator all yield the map in insertion order (iter_all_forms; the run iterates with "
+         "the serializer and with json_c_visit as well, including a visitor callback that deletes the member it is called for), deleting the "
+         "current key inside foreach is safe "
          "(foreach_delete_current); lifted by induction to every finite history from every initial size (run_refines, run_from_new). "
          "The load-factor test is modelled bit-exactly (IEEE rounding of size*0.66). The model is tied to the code by constants and "
          "structural facts regenerated from the sources on every run and by a differential run of model, spec and the ASan/UBSan-built "
@@ -263,7 +264,7 @@ def obj_history(rng, nops, kind=None):
             ks = rng.sample(keys, rng.randrange(0, min(len(keys), 6) + 1))
             if rng.chance(0.15):
                 ks = list(live)
-            lines.append(("fdel " + " ".join(hexs(x) for x in ks)).strip())
+            lines.append(((rng.choice(["fdel", "fdel", "vdel"])) + " " + " ".join(hexs(x) for x in ks)).strip())
             live = [x for x in live if x not in ks]
         else:
             ks = rng.sample(keys, rng.randrange(0, min(len(keys), 4) + 1))
@@ -294,7 +295,7 @@ def wide_obj_history(rng, kind):
         mode = rng.choice(["all", "most", "half"])
         ks = list(live) if mode == "all" else rng.sample(live, len(live) * (9 if mode == "most" else 5) // 10)
         if rng.chance(0.6):
-            lines.append("fdel " + " ".join(hexs(x) for x in ks))
+            lines.append(rng.choice(["fdel", "vdel"]) + " " + " ".join(hexs(x) for x in ks))
         else:
             for x in ks:
                 lines.append("odel " + hexs(x))
